@@ -22,3 +22,9 @@ CLAIMS["C02"] = dict(
     text="For every probe x context program (escaped strings, hex forms, floats, ranged ints, choices, set/set default, promptless-before-dependency, multi-definition; plain / conditional prompt / depends / menu / if; with a rename table) every history up to depth 3 (quick) / 4 (thorough) over set/unset/reset and load/merge of tool-written and hand-written files is replayed; each distinct state is saved, reloaded into a fresh instance and saved again: values, bytes, DefaultValues/MultipleAssignment records and unknown symbols are checked, with and without the deprecated block.",
     note="Load menu is history independent (files written at the initial and single-set states + hand-written); the no-mismatch clause is not demanded of states that carry an sdkconfig-injected default (C08 requires that mismatch to be reported).",
 )
+CLAIMS["C04"] = dict(
+    category="exploration",
+    technique="bounded exhaustive enumeration of Kconfig sources (option matrix, expression alphabet x positions, all structure shapes up to n entries, lexical variants, shipped fixtures); both real parsers run on each; structural dump + outputs compared",
+    text="Every program of the option matrix (all option kinds, with/without `if`, alone and in ordered pairs, config/menuconfig/choice/menu/comment), every expression of the alphabet (all symbol forms, operators, precedence probes) in every expression position, every structure shape with <=3 (quick) / <=4 (thorough) entries incl. all four source kinds and macros, ~50 lexical variants and every Kconfig fixture under test/ is parsed with parser_version=1 and 2: accept/reject, a full structural dump (node order, nesting, types, prompts, help, every condition via expr_str, defaults/ranges/selects/implies/sets, reverse dependencies) and sdkconfig/header/JSON in the default and every single-option-perturbed configuration must agree.",
+    note="Sources outside the documented language (negative family) are recorded but never alarmed; Kconfig.menus/.choices/.comments flat lists compared as multisets (tree order is compared through node_iter).",
+)
